@@ -732,7 +732,14 @@ class Fxp():
                 self.n_frac = n_frac = int(np.ceil(math.log2(10**int(getcontext().prec))))
 
             # force return raw value for better precision
-            val = int(val * 2**(self.n_frac))
+            val = val * 2**(self.n_frac)
+            if self.n_word is not None and self.n_word < _n_word_max and val.is_finite() and val != val.to_integral_value():
+                # not a multiple of the resolution: keep the fraction (as a float, like any other
+                # non-integer input) so that it is rounded by the configured method and reported as
+                # inexact; int() would silently truncate it before the rounding takes place
+                val = float(val)
+            else:
+                val = int(val)
             raw = True
 
         else:
